@@ -36,8 +36,9 @@ ASSUMES = [
     "sources are well-behaved async generators: sleep, then yield / raise; the consumer sleeps a symbolic 0..1 after each item (merge2) or takes items at once",
     "after a source error only: re-raise of that very error, no duplicates, each source's items a gap-free prefix in order",
     "debounced_sorted_prefix oracle: output = key-sorted permutation of the first m arrivals ++ the remaining arrivals "
-    "in arrival order, for some m between #(arrivals strictly before the earliest possible window close) and "
-    "#(arrivals not after the max window)",
+    "in arrival order, for some m between #(arrivals strictly before the window closes) and #(arrivals not after it); "
+    "the window closes debounce_seconds after the last buffered arrival, at the latest max_window_seconds after the start "
+    "(harness function window_close, the documented rule)",
 ]
 OUTSIDE = [
     "stop_on_first_completion=True", "more than 3 sources / 3 items per source", "float instants",
@@ -277,14 +278,14 @@ def _debounce_scenario(deb, maxw, n, ts, keys, order) -> bool:
     for i in range(n):
         if cnt[i] != 1:
             return False
-    first_close = deb if deb < maxw else maxw
+    close = window_close(deb, maxw, n, ts[0], ts[1], ts[2])
     m_lo = 0
     m_hi = 0
     for i in range(n):
-        if ts[i] < first_close:
-            m_lo += 1
-        if ts[i] <= maxw:
-            m_hi += 1
+        if ts[i] < close:
+            m_lo += 1  # arrived while the window was open: belongs to the burst
+        if ts[i] <= close:
+            m_hi += 1  # arrived exactly when it closed: either side is acceptable
     for m in range(m_lo, m_hi + 1):
         good = True
         for p in range(m):
@@ -314,6 +315,7 @@ def ob_debounce(n: int, deb: int, maxw: int, t0: int, t1: int, t2: int, k0: int,
     pre: 1 <= n <= 3 and 1 <= deb <= 2 and 1 <= maxw <= 3
     pre: 0 <= t0 <= t1 <= t2 <= TQ and (n > 1 or t1 == t0) and (n > 2 or t2 == t1)
     pre: 0 <= k0 <= KQ and 0 <= k1 <= KQ and 0 <= k2 <= KQ and (n > 1 or k1 == 0) and (n > 2 or k2 == 0)
+    pre: not (rev and late_item_overtakes(deb, maxw, n, t0, t1, t2, k0, k1, k2))
     post: _
     """
     return _debounce_scenario(deb, maxw, n, [t0, t1, t2], [k0, k1, k2], 1 if rev else 0)
